@@ -23,9 +23,22 @@ pub enum IoDecision {
     FailAfter(i32),
 }
 
+/// Life cycle of the buffers the io_uring write path hands to the kernel.
+#[derive(Clone, Copy, Debug, PartialEq, Eq)]
+pub enum UringEvent {
+    /// An SQE referring to `[ptr, ptr+len)` was pushed to the submission queue.
+    Queued { ptr: usize, len: usize },
+    /// The completion of the SQE referring to `ptr` was reaped with `result`.
+    Completed { ptr: usize, result: i32 },
+    /// The I/O layer dropped its own reference to the buffer at `ptr`.
+    Dropped { ptr: usize, len: usize },
+}
+
 pub trait Monitor: Send + Sync {
     /// A write of `data` at byte `offset` is about to be issued. `path` is
-    /// "sync" (pwrite), "uring" (io_uring SQE, decision ignored) or "direct".
+    /// "sync" (pwrite), "uring" (io_uring SQE; `FailBefore` queues the SQE with an
+    /// invalid descriptor so that the kernel completes it with EBADF, `FailAfter`
+    /// is treated as `Proceed`) or "direct".
     fn io_write(&self, _file: FileId, _offset: u64, _data: &[u8], _path: &'static str) -> IoDecision {
         IoDecision::Proceed
     }
@@ -35,6 +48,15 @@ pub trait Monitor: Send + Sync {
     }
     /// The fsync returned; `ok` is the real outcome (false also when skipped).
     fn io_fsync_done(&self, _file: FileId, _ok: bool) {}
+    /// The io_uring path is about to enter the kernel for a batch of `queued`
+    /// writes of which `completed` have completed. `Some(errno)` makes that call
+    /// fail with `errno` instead of being issued (the SQEs stay queued: with
+    /// SQPOLL the kernel may still execute them, as after a real failure).
+    fn uring_enter(&self, _file: FileId, _queued: usize, _completed: usize) -> Option<i32> {
+        None
+    }
+    /// Buffer life-cycle events of the io_uring write path.
+    fn uring_event(&self, _file: FileId, _event: UringEvent) {}
     /// A named scheduling point between critical sections.
     fn sched(&self, _point: &'static str, _a: u64, _b: u64) {}
     /// A reader holds `[sector, sector+blocks)` pinned and has loaded the sector.
@@ -76,6 +98,18 @@ pub fn io_write(file: FileId, offset: u64, data: &[u8], path: &'static str) -> I
     match monitor() {
         Some(monitor) => monitor.io_write(file, offset, data, path),
         None => IoDecision::Proceed,
+    }
+}
+
+#[inline]
+pub fn uring_enter(file: FileId, queued: usize, completed: usize) -> Option<i32> {
+    monitor().and_then(|monitor| monitor.uring_enter(file, queued, completed))
+}
+
+#[inline]
+pub fn uring_event(file: FileId, event: UringEvent) {
+    if let Some(monitor) = monitor() {
+        monitor.uring_event(file, event);
     }
 }
 
